@@ -161,6 +161,10 @@ def run(ctx):
     r7 = ctx.rule("C10.R7", "SAMPLE-SHAPE: the distribution parameters the batched constraint model hands to normal_dist / poisson_dist (captured by interpreting _ConstraintModel.make_pdf with 2 batch rows) and the sampling code of the numpy and jax distribution classes compose: rvs is asked for sample_shape + (batch rows, components) -- whatever shapes the means, widths and rates are kept in, and whichever of them the sampler reads the shape from", "SHAPE", floor=4)
     _sample_shapes(ctx, r7, repo)
 
+    r8 = ctx.rule("C10.R8", "OPS: the array operations the batched arms are written against (reshape to flatten the parameter rows, tile, gather, einsum, sum / product with an axis, stack, concatenate, where ...) on all four backends hand the caller's arguments to the library function of that operation in their own roles and in row-major element order (engine shared with C01.R15)", "OPS", floor=80)
+    from . import backend_ops
+    backend_ops.check(ctx, r8)
+
     # ------------------------------------------------------------ R2 / R4
     targets = [(c, c.methods["apply"]) for _, (b, c) in sorted(reg.items())]
     for cname in ("gaussian_constraint_combined", "poisson_constraint_combined"):
